@@ -493,7 +493,9 @@ def run(rep: Report, prog: Program, tier: str) -> None:
 
     # ---------------- C19-SIGNALING (= C14-ABSORB): a negotiation call resumed after close() cannot move signalingState away from closed
     from .common import import_rules
-    import_rules(rep, prog, tier, PROP, "C19-SIGNALING", "C14", ["C14-ABSORB"], "signalingState stays closed after close() (rule C14-ABSORB)", 5)
+    import_rules(rep, prog, tier, PROP, "C19-SIGNALING", "C14", ["C14-ABSORB", "C14-CLOSED"],
+                 "signalingState is closed before close() first suspends (a description arriving during the teardown is refused, so no transceiver or track escapes it) and stays closed "
+                 "afterwards (rules C14-CLOSED, C14-ABSORB)", 5)
 
     # ---------------- C19-LATCH: RTCIceTransport.stop() marks the transport closed before it suspends, so that a start() racing with it is refused
     rep.rule("C19-LATCH", "RTCIceTransport.stop() sets the closed state before its first await", min_instances=1)
